@@ -1,0 +1,69 @@
+//go:build verif
+
+// Verification contracts (comments only; compiled only with -tags verif).
+// Checked by /verif/bin/govc; see /verif/DESIGN.md.
+
+package standard
+
+//@ type Service
+//@   guarded_by attestedMu: attested
+//@
+//@ // pos(d, v): the position of validator v in the duty's parallel arrays.
+//@ spec func pos(d *attester.Duty, v phase0.ValidatorIndex) int
+//@ spec func inDuty(d *attester.Duty, v phase0.ValidatorIndex) bool = 0 <= pos(d, v) && pos(d, v) < len(d.validatorIndices) && d.validatorIndices[pos(d, v)] == v
+//@ // a well-formed duty: parallel arrays of equal length, distinct validators (pos is their inverse)
+//@ spec func validDuty(d *attester.Duty) bool = d != nil && len(d.committeeIndices) == len(d.validatorIndices) && len(d.validatorCommitteeIndices) == len(d.validatorIndices) && d.committeeLengths != nil && (forall j int :: 0 <= j && j < len(d.validatorIndices) ==> pos(d, d.validatorIndices[j]) == j)
+//@
+//@ func (*Service).validateAttestationData
+//@   requires s != nil && duty != nil && attestationData != nil
+//@   requires attestationData.Source != nil && attestationData.Target != nil
+//@   requires s.slotsPerEpoch > 0
+//@   ensures result == nil ==> attestationData.Slot == duty.slot
+//@   ensures result == nil ==> attestationData.Source.Epoch <= attestationData.Target.Epoch
+//@   ensures result == nil ==> attestationData.Target.Epoch == duty.slot / s.slotsPerEpoch
+//@   modifies nothing
+//@
+//@ func (*Service).fetchValidatorIndices
+//@   requires s != nil && s.chainTime != nil && s.attested != nil && unheld(s.attestedMu)
+//@   requires validDuty(duty)
+//@   loop 1
+//@     invariant -1 <= rangeindex && rangeindex < len(duty.validatorIndices)
+//@     invariant unheld(s.attestedMu)
+//@     invariant forall k int :: 0 <= k && k < len(validatorIndices) ==> inDuty(duty, validatorIndices[k])
+//@   ensures forall k int :: 0 <= k && k < len(result) ==> inDuty(duty, result[k])
+//@   ensures unheld(s.attestedMu)
+//@   modifies contents(s.attested), contents(s.attested[0])
+//@
+//@ func (*Service).attest
+//@   requires s != nil && duty != nil && data != nil && data.Source != nil && data.Target != nil
+//@   requires s.beaconAttestationsSigner != nil && s.attestationsSubmitter != nil && s.slotsPerEpoch > 0
+//@   requires len(committeeIndices) == len(accounts) && len(validatorCommitteeIndices) == len(accounts) && len(committeeSizes) == len(accounts)
+//@   requires data.Slot == duty.slot && data.Target.Epoch == duty.slot / s.slotsPerEpoch && data.Source.Epoch <= data.Target.Epoch
+//@   assumes call SignBeaconAttestations#1 (sigs, err): err == nil ==> len(sigs) == len(accounts)
+//@   at call SignBeaconAttestations#1: assert arg1 == accounts && arg2 == duty.slot && arg3 == committeeIndices
+//@   at call SignBeaconAttestations#1: assert arg2 == data.Slot && arg4 == data.BeaconBlockRoot && arg5 == data.Source.Epoch && arg6 == data.Source.Root && arg7 == data.Target.Epoch && arg8 == data.Target.Root
+//@   at call SignBeaconAttestations#1: assert arg7 == arg2 / s.slotsPerEpoch && arg5 <= arg7
+//@
+//@ func (*Service).Attest
+//@   requires s != nil && s.chainTime != nil && s.attested != nil && unheld(s.attestedMu) && s.slotsPerEpoch > 0
+//@   requires s.attestationDataProvider != nil && s.validatingAccountsProvider != nil && s.beaconAttestationsSigner != nil && s.attestationsSubmitter != nil
+//@   requires validDuty(duty) && len(duty.committeeIndices) > 0
+//@   assumes call AttestationData#1 (resp, err): err == nil ==> resp != nil && resp.Data != nil && resp.Data.Source != nil && resp.Data.Target != nil
+//@   assumes call ValidatingAccountsForEpochByIndex#1 (accts, err): err == nil ==> forall v phase0.ValidatorIndex :: in(accts, v) ==> accts[v] != nil && (exists j int :: 0 <= j && j < len(arg2) && arg2[j] == v)
+//@   loop 1
+//@     invariant len(accountValidatorIndices) == len(accountsArray) && len(accountsArray) == nvisited()
+//@     invariant forall k int :: 0 <= k && k < len(accountValidatorIndices) ==> in(validatingAccounts, accountValidatorIndices[k]) && accountsArray[k] == validatingAccounts[accountValidatorIndices[k]]
+//@     invariant forall k int :: 0 <= k && k < len(accountValidatorIndices) ==> inDuty(duty, accountValidatorIndices[k])
+//@   loop 2
+//@     invariant -1 <= rangeindex && rangeindex < len(duty.validatorIndices)
+//@     invariant forall j int :: 0 <= j && j <= rangeindex ==> in(validatorIndexToArrayIndexMap, duty.validatorIndices[j]) && validatorIndexToArrayIndexMap[duty.validatorIndices[j]] == j
+//@   loop 3
+//@     invariant -1 <= rangeindex#2 && rangeindex#2 < len(accountsArray)
+//@     invariant forall k int :: 0 <= k && k <= rangeindex#2 ==> committeeIndices[k] == duty.committeeIndices[pos(duty, accountValidatorIndices[k])] && validatorCommitteeIndices[k] == duty.validatorCommitteeIndices[pos(duty, accountValidatorIndices[k])] && committeeSizes[k] == duty.committeeLengths[committeeIndices[k]]
+//@   // C04: what is handed to signing/submission is, per validator, exactly that validator's assignment
+//@   at call attest#1: assert arg2 == duty && arg7 == attestationData && len(arg3) == len(accountValidatorIndices)
+//@   at call attest#1: assert forall k int :: 0 <= k && k < len(arg3) ==> inDuty(duty, accountValidatorIndices[k])
+//@   at call attest#1: assert forall k int :: 0 <= k && k < len(arg3) ==> arg3[k] == validatingAccounts[accountValidatorIndices[k]]
+//@   at call attest#1: assert forall k int :: 0 <= k && k < len(arg3) ==> arg4[k] == duty.committeeIndices[pos(duty, accountValidatorIndices[k])] && arg5[k] == duty.validatorCommitteeIndices[pos(duty, accountValidatorIndices[k])] && arg6[k] == duty.committeeLengths[arg4[k]]
+//@   // C01: refused data leads to no signing request
+//@   ensures calls(attest) == 0 ==> result1 != nil
